@@ -32,7 +32,7 @@ def _fmt_modules(fmt):
     import iodata.utils as U
     mods = [api, A, I, U, O, B, C, P, OV]
     names = {"poscar": ["poscar", "chgcar"], "wfx": ["wfx", "wfn"], "molekel": ["molekel", "molden"],
-             "json": ["json_qcschema"]}.get(fmt, [fmt])
+             "json": ["json_qcschema"], "extxyz": ["extxyz", "xyz"], "chgcar": ["chgcar", "poscar"], "locpot": ["locpot", "chgcar", "poscar"]}.get(fmt, [fmt])
     for n in names:
         mods.append(importlib.import_module(f"iodata.formats.{n}"))
     return mods
